@@ -116,6 +116,8 @@ def parse_unit(path):
                 last = None
             elif word == "unit":
                 segs.append(("unit", rest))
+            elif word == "safety_props":
+                segs.append(("safety_props", rest.split()))
             elif word == "strip_paths":
                 _strip_set().update(rest.split())
             else:
@@ -632,6 +634,8 @@ def compose(unit_path):
             parts.append(expand_extract(seg[1], log, meta, unit_path))
         elif seg[0] == "unit":
             meta["unit_name"] = seg[1]
+        elif seg[0] == "safety_props":
+            meta["safety_props"] = seg[1]
     text = "\n".join(parts) + "\n"
     # line map
     fn_ranges = {}
